@@ -179,6 +179,13 @@ fn main() {
                 writeln!(out, "{}", text::format_event(c)).unwrap();
             }
         }
+        // render --cases F : Model / LinearModel renderings compiled again (C12)
+        "render" => {
+            let cases = read_cases(&arg(&args, "--cases").expect("--cases"));
+            for c in &cases {
+                writeln!(out, "{}", text::render_event(c)).unwrap();
+            }
+        }
         _ => {
             eprintln!("usage: rv <lin> ...");
             std::process::exit(2);
